@@ -35,17 +35,24 @@ func init() {
 	})
 }
 
+type c10Group struct {
+	X *int64 `parquet:"x"`
+	Y string `parquet:"y"`
+}
+
 type c10Row struct {
-	ID int64   `parquet:"id"`
-	K1 int64   `parquet:"k1"`
-	K2 *int64  `parquet:"k2"`
-	S  string  `parquet:"s,dict"`
-	OS *string `parquet:"os"`
-	F  float64 `parquet:"f"`
-	B  bool    `parquet:"b"`
-	P  []int64 `parquet:"p"`
-	V  string  `parquet:"v"`
-	O3 int32   `parquet:"o3,optional"`
+	P0 []int64   `parquet:"p0"` // a repeated column located before every sort key
+	ID int64     `parquet:"id"`
+	K1 int64     `parquet:"k1"`
+	K2 *int64    `parquet:"k2"`
+	S  string    `parquet:"s,dict"`
+	OS *string   `parquet:"os"`
+	F  float64   `parquet:"f"`
+	B  bool      `parquet:"b"`
+	P  []int64   `parquet:"p"`
+	V  string    `parquet:"v"`
+	O3 int32     `parquet:"o3,optional"`
+	G  *c10Group `parquet:"g"` // g.x: optional leaf in an optional group (two definition levels)
 }
 
 func init() { reg[c10Row]("c10row") }
@@ -70,9 +77,9 @@ func (k sortKey) String() string {
 func (k sortKey) column() parquet.SortingColumn {
 	var sc parquet.SortingColumn
 	if k.desc {
-		sc = parquet.Descending(k.col)
+		sc = parquet.Descending(strings.Split(k.col, ".")...)
 	} else {
-		sc = parquet.Ascending(k.col)
+		sc = parquet.Ascending(strings.Split(k.col, ".")...)
 	}
 	if k.nullsFirst {
 		sc = parquet.NullsFirst(sc)
@@ -106,6 +113,11 @@ func c10KeyOf(row *c10Row, col string) (null bool, v any) {
 			return true, nil
 		}
 		return false, int64(row.O3)
+	case "g.x":
+		if row.G == nil || row.G.X == nil {
+			return true, nil
+		}
+		return false, *row.G.X
 	}
 	panic("c10: unknown key " + col)
 }
@@ -209,12 +221,26 @@ func c10GenRows(r *gen.Rand, n, idBase int) []c10Row {
 		if nulls3[i] {
 			row.O3 = int32(1 + r.Intn(5))
 		}
+		if r.P(70) {
+			row.P0 = make([]int64, r.Intn(4))
+			for j := range row.P0 {
+				row.P0[j] = -row.ID*10 - int64(j)
+			}
+		}
+		switch r.Intn(4) {
+		case 0: // group absent
+		case 1:
+			row.G = &c10Group{Y: "leaf-null"}
+		default:
+			x := int64(r.Intn(7)) - 3
+			row.G = &c10Group{X: &x, Y: "set"}
+		}
 	}
 	return rows
 }
 
 func c10PickKeys(r *gen.Rand) []sortKey {
-	cols := []string{"k1", "k2", "s", "os", "f", "b", "o3"}
+	cols := []string{"k1", "k2", "s", "os", "f", "b", "o3", "g.x"}
 	n := 1 + r.Intn(2)
 	var keys []sortKey
 	used := map[string]bool{}
@@ -239,7 +265,7 @@ func runC10(c *Ctx) {
 	for _, k := range keys {
 		scs = append(scs, k.column())
 		kdesc = append(kdesc, k.String())
-		nullable := k.col == "k2" || k.col == "os" || k.col == "o3"
+		nullable := k.col == "k2" || k.col == "os" || k.col == "o3" || k.col == "g.x"
 		if k.desc && nullable {
 			c.Obs("desc_nullable_key", 1)
 		}
@@ -256,7 +282,7 @@ func runC10(c *Ctx) {
 	libCmp := schema.Comparator(scs...)
 	kd := map[string]any{"target": target, "keys": strings.Join(kdesc, ", ")}
 	for _, k := range keys {
-		if k.desc && (k.col == "k2" || k.col == "os" || k.col == "o3") {
+		if k.desc && (k.col == "k2" || k.col == "os" || k.col == "o3" || k.col == "g.x") {
 			kd["desc_nullable"] = true
 		}
 	}
